@@ -51,7 +51,11 @@ func genPoke(t *rapid.T) ([]vkit.P2, float64) {
 	if rapid.IntRange(0, 3).Draw(t, "longdetour") == 0 {
 		// long detours whose length is next to a multiple of a block size (16, 32, 64, 128), so that the segment that comes
 		// back sits at and next to a block boundary of any code that looks at the rest of the line block by block
-		m = rapid.SampledFrom([]int{16, 32, 64, 128}).Draw(t, "detourblock")*rapid.IntRange(1, 4).Draw(t, "detourk") + rapid.IntRange(-6, 3).Draw(t, "detouroff")
+		blk := rapid.SampledFrom([]int{16, 32, 64, 128, 256, 512, 1024, 1024}).Draw(t, "detourblock")
+		m = blk*rapid.IntRange(1, 4).Draw(t, "detourk") + rapid.IntRange(-6, 3).Draw(t, "detouroff")
+		if blk >= 512 {
+			m = blk*rapid.IntRange(1, 2).Draw(t, "detourk2") + rapid.IntRange(-4, 0).Draw(t, "detouroff2") // up to 2048 vertices
+		}
 	}
 	l := [][2]float64{{0, 0}, {w / 2, h}, {w, 0}, {w + 1, -1}}
 	// a zigzag back to the left, below the base
@@ -67,7 +71,15 @@ func genPoke(t *rapid.T) ([]vkit.P2, float64) {
 		}
 		l = append(l, [2]float64{x0 + (x1-x0)*float64(k)/float64(m), y})
 	}
-	l = append(l, [2]float64{x1, h * rapid.Float64Range(0.1, 0.5).Draw(t, "pokey")})
+	py := h * rapid.Float64Range(0.1, 0.5).Draw(t, "pokey")
+	l = append(l, [2]float64{x1, py})
+	if rapid.Bool().Draw(t, "pokemore") {
+		// one or two more vertices inside the bay: the segment that comes in is then not the last one of the line (and not
+		// the last one of whatever piece of the rest a block-wise scan looks at)
+		for k, nk := 1, rapid.IntRange(1, 2).Draw(t, "pokemoren"); k <= nk; k++ {
+			l = append(l, [2]float64{x1 + w/40*float64(k), py * (1 + 0.1*float64(k))})
+		}
+	}
 	// rigid motion, so that nothing is axis-parallel
 	a := rapid.Float64Range(0, 2*math.Pi).Draw(t, "pokerot")
 	ox, oy := rapid.Float64Range(-20, 20).Draw(t, "pokeox"), rapid.Float64Range(-20, 20).Draw(t, "pokeoy")
@@ -808,7 +820,8 @@ func TestProp(t *testing.T) {
 			"vertex within tol*(1+1e-9) + 16 ulps of the largest coordinate of its replacing segment (dynamic programme, so duplicate vertices cannot confuse it), input unchanged, members simplified " +
 			"independently, and - when the input is simple by an independent O(n^2) test with margin 1e-6 - no two non-adjacent output segments properly cross (orientation margin 1e-9); for simple lines of <= 60 vertices that last test and the end points are repeated with the line multiplied exactly by 2^k for every second k in -60..60 (scale sweep). " +
 			"Non-trivial = at least one vertex dropped. Distinct by case hash." +
-			" Round 9: 'weave' lines (1 in 4 of the line cases that are not poke lines: a comb of 0-18 tall spikes, a vertex S, a tail of 5-18 vertices inside a band of 0.3-1.1 tolerances under the spike tips).",
+			" Round 9: 'weave' lines (1 in 4 of the line cases that are not poke lines: a comb of 0-18 tall spikes, a vertex S, a tail of 5-18 vertices inside a band of 0.3-1.1 tolerances under the spike tips)." +
+			" Round 10: poke detours of 512, 1024 and 2048 vertices less 0-4; in half of the poke lines one or two more vertices follow the segment that enters the bay.",
 		Assumptions:  []string{"termination is decided by a 20 s watchdog on calls that normally take microseconds, confirmed by a fresh-process replay", "rings of one polygon are not claimed independent (the code passes sibling rings as obstacles)"},
 		Gen:          gen,
 		Run:          run,
